@@ -280,7 +280,7 @@ def plan(tier):
     jobs = []
     if tier == "quick":
         hostile = [3, 4, 5, 7, 8, 9]  # user maps that collide with generated prefixes / rebind xsi / bind the default namespace
-        slow = {"unions_str": 1, "compound": 1}  # string bound 1 in the quick tier (int() model forks per character)
+        slow = {"unions_str": 1, "compound": 1, "nillable": 1, "sequential": 1, "family": 1, "unionmodels": 1}  # string bound 1 in the quick tier (int() model forks per character)
         for n, name in enumerate(_QUICK_SPECS):
             # every spec under one of the 8 covering configurations (rotating) and under one hostile prefix map
             w, h, ns, ind, ida = _QUICK_CFG[n % 8]
